@@ -1,7 +1,9 @@
 /* prelude/mode_uf.h -- UF mode: fadd fsub fmul fdiv fma sqrt and the int<->float conversions are
-   uninterpreted functions on bit patterns (CBMC adds the congruence axioms); fadd/fmul are made commutative by
-   ordering their operands.  Sign/abs/compare/blend keep their real bit-level meaning.  A postcondition that
-   holds for every interpretation holds for IEEE-754 arithmetic in particular. */
+   uninterpreted functions on bit patterns (CBMC adds the congruence axioms); fadd/fmul/fma are made commutative by
+   ordering their (first two) operands by bit pattern and applying ONE uninterpreted function to (lo, hi) -- logically
+   the same as `x<=y ? uf(x,y) : uf(y,x)` with half the applications (a quarter of the Ackermann pairs).
+   Sign/abs/compare/blend keep their real bit-level meaning.  A postcondition that holds for every interpretation
+   holds for IEEE-754 arithmetic in particular. */
 
 /* bit-level operations keep their real meaning in every mode */
 #define FNEG_32(x) ((u32)((x) ^ 0x80000000u))
@@ -50,12 +52,12 @@ u32 __CPROVER_uninterpreted_fmul32(u32, u32);
 u32 __CPROVER_uninterpreted_fdiv32(u32, u32);
 u32 __CPROVER_uninterpreted_fsqrt32(u32);
 u32 __CPROVER_uninterpreted_ffma32(u32, u32, u32);
-static inline u32 FADD_32(u32 x, u32 y) { return x <= y ? __CPROVER_uninterpreted_fadd32(x, y) : __CPROVER_uninterpreted_fadd32(y, x); }
-static inline u32 FMUL_32(u32 x, u32 y) { return x <= y ? __CPROVER_uninterpreted_fmul32(x, y) : __CPROVER_uninterpreted_fmul32(y, x); }
+static inline u32 FADD_32(u32 x, u32 y) { u32 lo = x <= y ? x : y, hi = x <= y ? y : x; return __CPROVER_uninterpreted_fadd32(lo, hi); }
+static inline u32 FMUL_32(u32 x, u32 y) { u32 lo = x <= y ? x : y, hi = x <= y ? y : x; return __CPROVER_uninterpreted_fmul32(lo, hi); }
 #define FSUB_32(x, y) __CPROVER_uninterpreted_fsub32(x, y)
 #define FDIV_32(x, y) __CPROVER_uninterpreted_fdiv32(x, y)
 #define FSQRT_32(x) __CPROVER_uninterpreted_fsqrt32(x)
-static inline u32 FMA_32(u32 x, u32 y, u32 z) { return x <= y ? __CPROVER_uninterpreted_ffma32(x, y, z) : __CPROVER_uninterpreted_ffma32(y, x, z); }
+static inline u32 FMA_32(u32 x, u32 y, u32 z) { u32 lo = x <= y ? x : y, hi = x <= y ? y : x; return __CPROVER_uninterpreted_ffma32(lo, hi, z); }
 #define FMULADD_32(x, y, z) FADD_32(FMUL_32(x, y), z)
 u64 __CPROVER_uninterpreted_fadd64(u64, u64);
 u64 __CPROVER_uninterpreted_fsub64(u64, u64);
@@ -63,12 +65,12 @@ u64 __CPROVER_uninterpreted_fmul64(u64, u64);
 u64 __CPROVER_uninterpreted_fdiv64(u64, u64);
 u64 __CPROVER_uninterpreted_fsqrt64(u64);
 u64 __CPROVER_uninterpreted_ffma64(u64, u64, u64);
-static inline u64 FADD_64(u64 x, u64 y) { return x <= y ? __CPROVER_uninterpreted_fadd64(x, y) : __CPROVER_uninterpreted_fadd64(y, x); }
-static inline u64 FMUL_64(u64 x, u64 y) { return x <= y ? __CPROVER_uninterpreted_fmul64(x, y) : __CPROVER_uninterpreted_fmul64(y, x); }
+static inline u64 FADD_64(u64 x, u64 y) { u64 lo = x <= y ? x : y, hi = x <= y ? y : x; return __CPROVER_uninterpreted_fadd64(lo, hi); }
+static inline u64 FMUL_64(u64 x, u64 y) { u64 lo = x <= y ? x : y, hi = x <= y ? y : x; return __CPROVER_uninterpreted_fmul64(lo, hi); }
 #define FSUB_64(x, y) __CPROVER_uninterpreted_fsub64(x, y)
 #define FDIV_64(x, y) __CPROVER_uninterpreted_fdiv64(x, y)
 #define FSQRT_64(x) __CPROVER_uninterpreted_fsqrt64(x)
-static inline u64 FMA_64(u64 x, u64 y, u64 z) { return x <= y ? __CPROVER_uninterpreted_ffma64(x, y, z) : __CPROVER_uninterpreted_ffma64(y, x, z); }
+static inline u64 FMA_64(u64 x, u64 y, u64 z) { u64 lo = x <= y ? x : y, hi = x <= y ? y : x; return __CPROVER_uninterpreted_ffma64(lo, hi, z); }
 #define FMULADD_64(x, y, z) FADD_64(FMUL_64(x, y), z)
 u32 __CPROVER_uninterpreted_sitofp_8_32(u64);
 #define CV_sitofp_8_32(x) __CPROVER_uninterpreted_sitofp_8_32((u64)(s64)(s8)(x))
